@@ -2514,6 +2514,12 @@ class CloneAnalysis:
             if m and L.is_map(m['m']) and match(f"{x}.id", m['k']):
                 pos = isinstance(e.ops[0], ast.In)
                 return lambda o, i, pos=pos: i == pos
+            if m and match(f"{x}.id", m['k']) and not self.registrations:
+                ml = L.lab(m['m'], cn, {})
+                if ml.kind in ('SRCMAP', 'SRCKEYS') and full_selection(ml) is None:
+                    # the clone map holds exactly one clone per selected id: `id in <selection by id>` == `id in <clone map>`
+                    pos = isinstance(e.ops[0], ast.In)
+                    return lambda o, i, pos=pos: i == pos
             if x in {n.id for n in ast.walk(e) if isinstance(n, ast.Name)}:
                 return ('refute', f"additionally filtered by `{src(e)[:70]}`: links are dropped (or kept) by something other than "
                                   f"`{x}.wbs != self or {x}.id in {self.mapvar}`")
